@@ -22,6 +22,7 @@ import (
 	"verif/h/kf"
 	"verif/h/llvmx"
 	"verif/h/lx"
+	"verif/h/walk"
 )
 
 // kfMDPersist: known finding KF-C14-metadata-ids-persist is listed and still reproduces; the step that
@@ -552,6 +553,26 @@ func (w *failingWriter) Write(p []byte) (int, error) {
 
 var errWriter = fmt.Errorf("writer failed")
 
+// forceCaches fills the exported caches (`Typ`, `Successors`) of every instruction and terminator, so that
+// two modules can be compared structurally whatever was queried before.
+func forceCaches(m *ir.Module) {
+	for _, f := range m.Funcs {
+		for _, b := range f.Blocks {
+			for _, in := range b.Insts {
+				if v, ok := in.(value.Value); ok {
+					_ = v.Type()
+				}
+			}
+			if b.Term != nil {
+				_ = b.Term.Succs()
+				if v, ok := b.Term.(value.Value); ok {
+					_ = v.Type()
+				}
+			}
+		}
+	}
+}
+
 func isObserver(op string) bool { return len(op) > 3 && op[:3] == "obs" }
 
 // replay builds a fresh world from steps; observers run only if observe is set.
@@ -595,6 +616,13 @@ func checkHistory(t hx.TB, test string, steps []Step) {
 	}
 	if sA != sB {
 		hx.Fail(t, test, "json", c, "the final printed module depends on whether observers ran during the history (- steps alone, + with observers):\n%s", llvmx.Diff(sB, sA))
+	}
+	// and the two modules are the same object graph (slice orders, field values, sharing), not only the same text:
+	// an observer that re-orders a list of the module or rewrites a field in passing changes the IR even when the
+	// printed text hides it (both modules have been printed by now, so lazily assigned IDs exist on both sides)
+	var d string
+	if pb := lx.Guard(func() { forceCaches(A.m); forceCaches(B.m); d = walk.Bisimilar(A.m, B.m) }); pb == nil && d != "" {
+		hx.Fail(t, test, "json", c, "the module that was observed during the history differs structurally from the one built by the same steps alone, although both print alike: %s", d)
 	}
 	sA2, p3 := lx.Print(A.m)
 	if p3 != nil || sA2 != sA {
